@@ -115,7 +115,7 @@ func (g gen) endpoint(label, url string) map[string]any {
 		e["auth"] = map[string]any{"type": "http_message_signatures", "config": map[string]any{"signer": map[string]any{"name": "me", "key_store": map[string]any{"path": filepath.Join(vkit.KeysDir(), "ecp256.key.pem")}},
 			"components": g.strs(label+".components", []string{"@method", "@path", "content-type"}, 1, 2), "ttl": "30s"}}
 	case 0:
-		e["auth"] = map[string]any{"type": "basic_auth", "config": map[string]any{"user": "svc_user", "password": g.pick(label+".pw", "s3cr3t!", "pa_ss__word")}}
+		e["auth"] = map[string]any{"type": "basic_auth", "config": map[string]any{"user": "svc_user", "password": g.pick(label+".pw", "s3cr3t!", "pa_ss__word", "f", "T", "0123", "1e3", "~", "null", "yes", "0x1f", "x #y", "a: b", "*star", "- dash", "[1]", "2001:db8::1", " padded ")}}
 	case 1:
 		e["auth"] = map[string]any{"type": "api_key", "config": map[string]any{"in": g.pick(label+".in", "header", "cookie", "query"), "name": "x-api-key", "value": "k-123"}}
 	}
@@ -180,7 +180,7 @@ func (g gen) mechanisms() catalogue {
 	}
 
 	// authenticators (at least one)
-	add("authenticators", "anon", "anonymous", map[string]any{"subject": g.pick("anon.sub", "anonymous", "guest_user")})
+	add("authenticators", "anon", "anonymous", map[string]any{"subject": g.pick("anon.sub", "anonymous", "guest_user", "f", "T", "0123", "1e3", "~", "null", "yes", "0x1f", "x #y", "a: b", "*star", "- dash", "[1]", "2001:db8::1", " padded ")})
 
 	if g.maybe("authn.unauth") {
 		add("authenticators", "deny_all", "unauthorized", nil)
@@ -281,7 +281,7 @@ func (g gen) mechanisms() catalogue {
 
 	// finalizers
 	if g.maybe("fin.header") {
-		add("finalizers", "hdr", "header", map[string]any{"headers": map[string]any{"x-user": "{{ .Subject.ID }}", "x-static": g.pick("hdr.v", "a", "b_c")}})
+		add("finalizers", "hdr", "header", map[string]any{"headers": map[string]any{"x-user": "{{ .Subject.ID }}", "x-static": g.pick("hdr.v", "a", "b_c", "f", "T", "0123", "1e3", "~", "null", "yes", "0x1f", "x #y", "a: b", "*star", "- dash", "[1]", "2001:db8::1", " padded ")}})
 	}
 
 	if g.maybe("fin.cookie") {
@@ -324,7 +324,7 @@ func (g gen) mechanisms() catalogue {
 	}
 
 	if g.maybe("eh.www") {
-		add("error_handlers", "challenge", "www_authenticate", map[string]any{"realm": g.pick("www.realm", "my_realm", "Please login")})
+		add("error_handlers", "challenge", "www_authenticate", map[string]any{"realm": g.pick("www.realm", "my_realm", "Please login", "f", "T", "0123", "1e3", "~", "null", "yes", "0x1f", "x #y", "a: b", "*star", "- dash", "[1]", "2001:db8::1", " padded ")})
 	}
 
 	return c
